@@ -276,8 +276,10 @@ def check_chain(res, facts, trait, rem_m, has_m, touching):
             if fn["name"] in touching and len(args) > 1 and any("consumed" in h for h in how):
                 x = args[1]
                 alts = x[1] if (isinstance(x, tuple) and x[0] == "phi") else (x,)
-                okx = all(canon(y) == ("param", 2) or (canon(y)[0] == "bin" and canon(y)[1] == "Sub" and canon(y)[2] == ("param", 2) and is_a_rem(canon(y)[3]))
-                          for y in alts)
+                def is_rest(y):
+                    y = canon(y)
+                    return y[0] == "bin" and y[1] == "Sub" and y[2] == ("param", 2) and is_a_rem(y[3])
+                okx = all(canon(y) == ("param", 2) or is_rest(y) for y in alts) and any(is_rest(y) for y in alts)
                 if not okx:
                     res.bad(key + "|operand", mb.loc(bi), "count passed to b is not `cnt - a.remaining()`")
     return n_b_calls
